@@ -196,6 +196,22 @@ func c11Scenarios() []scenario {
 			out = append(out, scenario{Name: op.Name, Text: text, Vars: vars, Bal: bal, Meta: meta, UsesO: strings.Contains(text, "overdraft (")})
 		}
 	}
+	// metadata: scripts that read a metadata entry and also write metadata (same and other keys)
+	mops := append(metaOps(), op{"am b.acc=@x", 0, func() gen.Stmt {
+		return &gen.Call{Name: "set_account_meta", Args: []gen.Expr{gen.Acct("b"), gen.Str("acc"), gen.Acct("x")}}
+	}})
+	for _, mo := range mops {
+		for _, withDecl := range []bool{false, true} {
+			prog := &gen.Program{}
+			if withDecl {
+				prog.Vars = []*gen.VarDecl{decls[3].Mk()} // account $v = meta(@b, "acc")
+				prog.Stmts = []gen.Stmt{&gen.Send{Sent: &gen.SentLit{E: gen.Mon("USD", "1")}, Src: &gen.SrcAccount{E: gen.V("v")}, Dst: da("x")}, mo.Mk()}
+			} else {
+				prog.Stmts = []gen.Stmt{mo.Mk()}
+			}
+			out = append(out, scenario{Name: "meta:" + mo.Name, Text: gen.Text(prog), Vars: map[string]string{}, Bal: bal, Meta: env.Meta{"b": {"acc": "a", "k": "old"}, "a": {"k": "old", "j": "old"}}})
+		}
+	}
 	for _, b := range c12Bases() {
 		prog := b.Mk()
 		vars := map[string]string{}
